@@ -77,7 +77,7 @@ pub fn spec(prop: &str) -> Option<PropSpec> {
             &["probe.array_revision_reconstructed", "probe.snapshot_staged_something"]),
         "C19" => s("C19", "exploration", 60000, 900000, &["probe.identifier_checked"], &["probe.order_pair_checked"],
             "every revision identifier of every tree at every sync point and after staging ops: print/parse, construction rule, content digest, order axioms; non-trivial = identifiers and pairs were checked; distinct = distinct op sequence hash",
-            &["probe.identifier_checked", "probe.identifier_content_checked", "probe.order_triple_checked", "probe.identifier_index_ge_10"]),
+            &["probe.identifier_checked", "probe.identifier_content_checked", "probe.order_triple_checked", "probe.identifier_index_ge_10", "probe.identifier_index_ge_100", "probe.same_edit", "probe.same_edit_two_heads"]),
         "C08" => s("C08", "exploration", 100000, 1500000, &["probe.commit_with_array_conflict", "probe.commit_with_object_conflict", "probe.resolve", "probe.snapshot"], &[],
             "every public call under catch_unwind with the lock shim; non-trivial = operations ran in conflicted states; distinct = distinct op sequence hash",
             &["probe.commit_with_array_conflict", "probe.commit_with_object_conflict", "probe.resolve_array", "probe.refresh_with_stage", "probe.reload_until"]),
